@@ -356,6 +356,8 @@ def run(prop, tier, seed, model_part=None):
             "random_scenario_conformance": {k: v for k, v in rconf.items() if k != "drift"},
             "random_scenario_drift": rconf.get("drift", []),
             "outcomes": st["stats"],
+            "request_protocol_layer": {"drift": st.get("protocol_drift", []), "drift_count": st.get("protocol_drift_count", 0),
+                                       "clauses": "PR_* of MosaikRef!ProtoStep evaluated at every SETUP / SB / SE / DB / DE / STOP event of every execution"},
             "clauses_of_other_properties_seen": {k: v for k, v in st["all_clauses_seen"].items() if not k.startswith(prop + "_")},
         },
         "checker_cmd": "tlc -workers 1 -config RefTrace.cfg RefTrace (TRACE_FILE=<batch>), batches of 400 executions",
